@@ -660,7 +660,9 @@ func redactArrayValuesWithKey(parentKey string, arr []any, redactFieldNames bool
 						arr[i] = item
 					}
 				} else {
-					arr[i] = redactScalarValue([]string{parentKey}, item, isSearchStage, isSelectivelyRedactable)
+					// an element belongs to the field(s) on the path of its array
+					underMatchingField := isSelectivelyRedactable || reMatchesAnyKeyInPath(&keyPath, redactedFieldsRegexp)
+					arr[i] = redactScalarValue([]string{parentKey}, item, isSearchStage, underMatchingField)
 				}
 			}
 		}
